@@ -9,6 +9,7 @@ Proof scripts must touch objects only through the harness (h.attr, h.items, h.ne
 """
 from __future__ import annotations
 
+from pyvc.values import unmodelled as _unmodelled  # noqa: E402
 import fractions
 import importlib
 
@@ -374,7 +375,7 @@ class Harness:
             def py_getattr(s, it, name):
                 if name in methods:
                     return Builtin(f"{label}.{name}", methods[name])
-                raise it.exc("AttributeError", name)
+                raise _unmodelled(self, name)
 
         return _Stub()
 
